@@ -180,6 +180,52 @@ func c19fLiteral(r *Rand) string {
 	return strconv.Itoa(r.Intn(100000))
 }
 
+var c19fTrigForms = []string{"sin([0])", "cos([0])", "tan([0])", "asin([0])", "acos([0])", "atan([0])", "exp2([0])",
+	"sin([0])", "cos([0])", "tan([0])", "atan([0])", "exp2([0])", "asin([0])",
+	"sin([0])*sin([0])+cos([0])*cos([0])", "sin([0])/cos([0])==tan([0])", "atan(tan([0]))", "asin(sin([0]))", "acos(cos([0]))", "tan(atan([0]))",
+	"sin(-[0])==-sin([0])", "exp2([0])*exp2(-[0])", "log2(exp2([0]))", "exp2(floor([0]))", "2^floor([0])==exp2(floor([0]))", "4*atan(1)", "acos(-1)",
+	"asin([0])+acos([0])", "atan([0]/[1])", "sin([0]+[1])", "cos([0]*[1])", "round(sin([0])*1000)", "sqrt(1-sin([0])^2)", "exp2([0]/[1])"}
+
+// arguments that matter to sin.go / tan.go / atan.go / asin.go / trig_reduce.go / exp.go (exp2)
+func c19fTrigArg(r *Rand, a uint64) uint64 {
+	sgn := func(b uint64) uint64 {
+		if r.Chance(1, 3) {
+			return b | 1<<63
+		}
+		return b
+	}
+	switch r.Intn(12) {
+	case 0: // a multiple of pi/4 and its neighbours (the octant boundaries; cancellation in the Cody-Waite reduction)
+		return sgn(math.Float64bits(float64(r.Range(0, 4000))*(math.Pi/4)) + uint64(r.Range(-3, 3)))
+	case 1: // large multiples: still below 2^29
+		return sgn(math.Float64bits(float64(r.Intn(1<<29))*(math.Pi/4)) + uint64(r.Range(-2, 2)))
+	case 2: // around reduceThreshold = 2^29
+		return sgn(uint64(int64(math.Float64bits(1<<29)) + int64(r.Range(-3, 3))))
+	case 3: // Payne-Hanek: every exponent from 2^29 to the top, random mantissa
+		return sgn(uint64(r.Range(1023+29, 2046))<<52 | (uint64(r.Intn(1<<26))<<26 | uint64(r.Intn(1<<26))))
+	case 4: // Payne-Hanek near multiples of pi/4
+		k := float64(uint64(r.Intn(1<<31))<<uint(r.Intn(22)) + 1<<31)
+		return sgn(math.Float64bits(k*(math.Pi/4)) + uint64(r.Range(-2, 2)))
+	case 5: // [-1, 1]: asin / acos, the 0.7 / 0.66 / tan(3pi/8) thresholds
+		return sgn(Pick(r, []uint64{math.Float64bits(0.7), math.Float64bits(0.66), math.Float64bits(2.41421356237309504880), math.Float64bits(1), math.Float64bits(0.5),
+			math.Float64bits(math.Sqrt2 / 2)}) + uint64(r.Range(-3, 3)))
+	case 6: // uniformly in (-1, 1)
+		return sgn(math.Float64bits(float64(r.Intn(1<<30)) / float64(1<<30)))
+	case 7: // tiny: zz <= 1e-14 in tan, the series' first terms
+		return sgn(math.Float64bits(math.Ldexp(1+float64(r.Intn(1<<20))/float64(1<<20), -r.Range(1, 1074))))
+	case 8: // exp2: integers and halves over the whole range, the overflow / underflow bounds
+		return math.Float64bits(float64(r.Range(-1080, 1030)) + Pick(r, []float64{0, 0, 0.5, -0.5, 0.25, 1e-9, 0.4999999999999999}))
+	case 9:
+		return Pick(r, []uint64{math.Float64bits(1023.9999999999999), math.Float64bits(1024), math.Float64bits(1023.9999999999998), math.Float64bits(-1074), math.Float64bits(-1074.0000000000002),
+			math.Float64bits(-1073.9999999999998), math.Float64bits(-1075), math.Float64bits(-1022), math.Float64bits(-1022.5), math.Float64bits(-1023), math.Float64bits(1023),
+			math.Float64bits(0.5), math.Float64bits(-0.5), math.Float64bits(0.49999999999999994), math.Float64bits(math.Pi), math.Float64bits(math.Pi / 2), math.Float64bits(355),
+			math.Float64bits(1e22), math.Float64bits(math.MaxFloat64), 1, 1 << 63, 0, 0x7ff0000000000000, 0xfff0000000000000, 0x7ff8000000000001})
+	case 10: // moderate magnitude
+		return math.Float64bits((float64(r.Intn(1<<30))/float64(1<<30) - 0.5) * Pick(r, []float64{4, 20, 200, 2000, 1e6}))
+	}
+	return a
+}
+
 func c19F64Gen(r *Rand, tier string) []string {
 	n := 700
 	if tier == "thorough" {
@@ -259,6 +305,10 @@ func c19F64Gen(r *Rand, tier string) []string {
 			l := Pick(r, []string{"log([0])", "log10([0])", "log2([0])", "log([0])", "log10([0])", "log2([0])",
 				"log(abs([0]))", "log2([0])+log2([1])", "log10([0])*2", "floor(log10([0]))", "log2(sqrt([0]))", "log([0])/log([1])", "round(log2([0]))==log2([0])"})
 			out = append(out, c19fMath(l, x, b&^(1<<63)))
+		}
+		// the trigonometric functions and exp2 (pure Go on amd64; modelled operation by operation since round 4c)
+		if i%2 == 1 {
+			out = append(out, c19fMath(Pick(r, c19fTrigForms), c19fTrigArg(r, a), b))
 		}
 		// literals
 		if i%2 == 0 {
